@@ -196,7 +196,13 @@ func (ms *Modules) resolveIdentities() []error {
 			}
 		}
 		sort.SliceStable(newValues, func(j, k int) bool {
-			return newValues[j].Name < newValues[k].Name
+			if newValues[j].Name != newValues[k].Name {
+				return newValues[j].Name < newValues[k].Name
+			}
+			// Identities of the same name in different modules: order
+			// them by module so that the result does not depend on
+			// the iteration order of the dictionary.
+			return newValues[j].modulePrefixedName() < newValues[k].modulePrefixedName()
 		})
 		i.Identity.Values = newValues
 	}
